@@ -198,6 +198,14 @@ func (l *LLA) Apply(ra *ndp.RouterAdvertisement) error {
 		return nil
 	}
 
+	// The option can only carry a 6 byte (Ethernet style) address: package ndp
+	// refuses to encode any other length, so an interface with a longer
+	// hardware address such as IP over InfiniBand advertises no option rather
+	// than producing a router advertisement which cannot be sent.
+	if len(l.Addr) != 6 {
+		return nil
+	}
+
 	ra.Options = append(ra.Options, &ndp.LinkLayerAddress{
 		Direction: ndp.Source,
 		Addr:      l.Addr,
